@@ -54,6 +54,11 @@ func caseGen() *rapid.Generator[Case] {
 			w := Worker{Script: sg.Draw(t, "script"), Reuse: rapid.Bool().Draw(t, "reuse")}
 			for j, k := 0, rapid.IntRange(1, 4).Draw(t, "renders"); j < k; j++ {
 				w.Renders = append(w.Renders, rapid.SampledFrom(palette).Draw(t, "style"))
+				f := 0
+				if rapid.IntRange(0, 5).Draw(t, "fault?") == 0 {
+					f = 1 + rapid.IntRange(0, 6).Draw(t, "fault")
+				}
+				w.Faults = append(w.Faults, f)
 			}
 			// distinct header texts so JSON renders
 			for _, op := range w.Script.Ops {
